@@ -29,6 +29,7 @@ RULE = (
     " Round 7: header grid (nodes x shapes x ack x types 0-40) with a ';' payload; line-ending variants decoded before the encoder is checked."
     ' Round 8: cut warm-up lines without terminator; lone-surrogate payloads.'
     ' Round 10: sibling messages (same destination, different payloads) through one schema object in both orders; header-looking and quoted payloads enumerated.'
+    ' Round 11: every enumerated payload and version-looking text under every command and type; `pre_dumps` (headers whose digits concatenate equally, through one schema).'
 )
 ASSUMPTIONS = [
     "MessageSchema with set_protocol(get_protocol(v)) is the codec entry point (as in the repository's tests)",
